@@ -54,6 +54,8 @@ open Classical in
 instance : CasNum ℝ where
   ofInt n := (n : ℝ)
   ofDyadic m e := (m : ℝ) * (2 : ℝ) ^ e
+  nonFinite _ := 0   -- no real value: only reachable through x/0 in a branch the program does not select;
+                     -- every theorem through such a node needs the branch condition (stated in DESIGN trusted base)
   add := (· + ·)
   sub := (· - ·)
   mul := (· * ·)
@@ -95,6 +97,7 @@ variable (a b c : ℝ) (n m e : ℤ)
 
 @[cas_real] theorem ofInt_eq : (CasNum.ofInt n : ℝ) = (n : ℝ) := rfl
 @[cas_real] theorem ofDyadic_eq : (CasNum.ofDyadic m e : ℝ) = (m : ℝ) * (2 : ℝ) ^ e := rfl
+@[cas_real] theorem nonFinite_eq (k : ℤ) : (CasNum.nonFinite k : ℝ) = 0 := rfl
 @[cas_real] theorem add_eq : CasNum.add a b = a + b := rfl
 @[cas_real] theorem sub_eq : CasNum.sub a b = a - b := rfl
 @[cas_real] theorem mul_eq : CasNum.mul a b = a * b := rfl
